@@ -147,7 +147,7 @@ def _c11_vm_goal(case, out):
                 tms.append("%d%%N" % int(nxt()))
             ops.append("PDir %s %s %s" % (title, _vm_list(tms, "N"), _vm_list(es, "entry")))
     verdicts, _, listing = out.partition("|")
-    oks = _vm_list(["true" if c == "O" else "false" for c in verdicts], "bool")
+    oks = _vm_list(["true" if c == "O" else "false" for c in verdicts[0::9]], "bool")
     paths, views = [], []
     for item in (listing.split(",") if listing else []):
         hp, _, v = item.partition(":")
